@@ -153,13 +153,25 @@ def gen_shared(rng):
     gfields = [("len", w1), ("kind", "Ge"), ("seq", w2)]
     group = "group Header { len: %d, kind: Ge, seq: %d }\n" % (w1, w2)
     n = rng.randint(2, 5)
+    # how the uses differ: independently drawn constraints; or only in the tag the enum field is pinned to (the
+    # integer constraints equal or absent in every use); or only in one integer constraint
+    mode = rng.choice(["mixed", "mixed", "enum_only", "enum_with_same_scalars", "one_scalar"])
+    same = {fid: str(rng.randrange(1 << ty)) for (fid, ty) in gfields if ty != "Ge" and rng.random() < 0.5}
     with_g, inl = [], []
     for i in range(n):
         cs = {}
-        if rng.random() < 0.6:
-            for (fid, ty) in gfields:
-                if rng.random() < 0.5:
-                    cs[fid] = rng.choice(["GA", "GB", "GC"]) if ty == "Ge" else str(rng.randrange(1 << ty))
+        if mode == "mixed":
+            if rng.random() < 0.6:
+                for (fid, ty) in gfields:
+                    if rng.random() < 0.5:
+                        cs[fid] = rng.choice(["GA", "GB", "GC"]) if ty == "Ge" else str(rng.randrange(1 << ty))
+        elif mode in ("enum_only", "enum_with_same_scalars"):
+            if rng.random() < 0.85:
+                cs["kind"] = ["GA", "GB", "GC"][i % 3] if rng.random() < 0.7 else rng.choice(["GA", "GB", "GC"])
+            if mode == "enum_with_same_scalars":
+                cs.update(same)
+        else:
+            cs["len"] = str((i * 37 + 1) % (1 << w1))
         use = "Header" + ((" { %s }" % ", ".join("%s = %s" % kv for kv in cs.items())) if cs else "")
         flat = []
         for (fid, ty) in gfields:
@@ -173,3 +185,27 @@ def gen_shared(rng):
     e = rng.choice(["little", "big"])
     head = "%s_endian_packets\n%s" % (e, enums)
     return head + group + "".join(with_g), head + "".join(inl)
+
+
+def gen_shared_payload(rng):
+    """One group that CONTAINS the payload (or an unsized array), inlined into several declarations that put
+    different amounts of static data after it: whatever the compiler derives per use site (the octets kept after
+    the payload, padded sizes, ...) must not leak from one use to another.  Returns (grouped text, inlined text)."""
+    w = rng.choice([8, 16])
+    pay = rng.choice(["_payload_", "_body_"])
+    pre = rng.choice([["opcode: %d" % w], ["opcode: %d" % w, "seq: 8"], ["a: 4", "b: 4", "opcode: %d" % w]])
+    group = "group Framed { %s, %s }\n" % (", ".join(pre), pay)
+    n = rng.randint(2, 4)
+    tails = []
+    choices = [[], ["crc: 16"], ["crc: 8"], ["crc: 16", "t: 8"], ["tag: 8[4]"], ["tag: 8[2]", "_padding_[4]"], ["crc: 32"]]
+    rng.shuffle(choices)
+    with_g, inl = [], []
+    for i in range(n):
+        tail = ["%s%d%s" % (f.split(":")[0], i, f[len(f.split(":")[0]):]) if not f.startswith("_") else f for f in choices[i]]
+        with_g.append("packet Fr%d {\n  %s\n}\n" % (i, ",\n  ".join(["Framed"] + tail)))
+        inl.append("packet Fr%d {\n  %s\n}\n" % (i, ",\n  ".join(pre + [pay] + tail)))
+    order = list(range(n))
+    rng.shuffle(order)
+    e = rng.choice(["little", "big"])
+    head = "%s_endian_packets\n" % e
+    return head + group + "".join(with_g[k] for k in order), head + "".join(inl[k] for k in order)
